@@ -288,6 +288,13 @@ def sliceFrom (x n : Val) : M Val := do
   | .bytes b => pure (.bytes (b.drop k))
   | .bytearray b => pure (.bytearray (b.drop k))
   | _ => throw .unsupported
+/-- `x[:n]` on byte strings for `n ≥ 0` -/
+def sliceTo (x n : Val) : M Val := do
+  let k ← natOf n
+  match x with
+  | .bytes b => pure (.bytes (b.take k))
+  | .bytearray b => pure (.bytearray (b.take k))
+  | _ => throw .unsupported
 def bitand (a b : Val) : M Val := do pure (.int (((← natOf a) &&& (← natOf b) : Nat)))
 def bitxor (a b : Val) : M Val := do pure (.int (((← natOf a) ^^^ (← natOf b) : Nat)))
 def bitor (a b : Val) : M Val := do pure (.int (((← natOf a) ||| (← natOf b) : Nat)))
